@@ -3,7 +3,7 @@
 export GOPROXY=off GOSUMDB=off GOTOOLCHAIN=local GOFLAGS=
 OUT=$(mktemp /tmp/cpf-baseline.XXXXXX.json)
 trap 'rm -f "$OUT"' EXIT
-(cd /repo/sourcecode-parser && go test -json -vet=off -count=1 -timeout 25m ./... > "$OUT" 2>&1)
+(cd ${REPO_DIR:-/repo}/sourcecode-parser && go test -json -vet=off -count=1 -timeout 25m ./... > "$OUT" 2>&1)
 python3 - "$OUT" <<'PY'
 import json,sys
 base=json.load(open('/root/.vp/BASELINE.json'))
